@@ -1,4 +1,4 @@
-import AkVerif.Lemmas.CliGraphReach
+import AkVerif.Lemmas.CliGraphInfo
 /-!
 # C19 — command options are inherited exactly along the declared command graph
 
@@ -25,12 +25,13 @@ def verbose : Name := ['v', 'e', 'r', 'b', 'o', 's', 'e']
 /-- what the statement calls "the standard color and verbosity options" is what the source declares:
 `--color`, `--no-color` (always) and `-v`, `--verbose` (unless `_no_log`) are option strings of every
 fresh parser, the attribute `no_color` that `parse_args` reads exists and is false by default, and the
-first-argument test of `parse_args` looks for `-h`/`--help`. Re-decided when the source changes. -/
+first-argument test of `parse_args` looks for `-h`/`--help` and for nothing else, and `parse_args` works on a
+private copy of its argument. Re-decided when the source changes. -/
 theorem std_shape :
     (∀ nl, ∀ s ∈ [sColor, sNoColor], s ∈ optStrings (std nl)) ∧
     (∀ s ∈ [sV, sVerbose], s ∈ optStrings (std false)) ∧
     (∀ nl, (defaults (std nl) []).get noColor = some (.bool false)) ∧
-    cfg.helpFirst = [hShort, hLong] := by decide +kernel
+    cfg.helpFirst = [hShort, hLong] ∧ cfg.copiesArgs = true := by decide +kernel
 
 /-! ### declaration strings -/
 
@@ -230,7 +231,8 @@ theorem command_dispatch {nl dflt ds adds st} (hr : Reach nl dflt ds adds st) {q
 a public command without required arguments (`finishable`) then, by the kind of its spec:
 `store_true` — `[cmd, s]` is parsed and the attribute is `True`; `store_false` — `False`;
 `store_const` — the constant; `count` whose attribute starts at a number `n` — `n+1`;
-a value option — `[cmd, s, w]` is parsed for every plain word `w` and the attribute is `w`.
+a value option — `[cmd, s, w]` for a plain word `w`: parsed with the attribute `w` itself, or `int(w)` under
+`type=int`; `SystemExit(2)` when `w` is no integer (`type=int`) or no member of `choices=[...]`.
 (The attribute must not be `color`/`no_color` nor the name of a positional of the command.) -/
 theorem parse_accepts {nl dflt ds adds st} (hr : Reach nl dflt ds adds st) {q : Parser} (hq : q ∈ st.parsers)
     (hpub : q.internal = false) (h1 : q.name ≠ hShort) (h2 : q.name ≠ hLong) (hfin : finishable q.opts = true)
@@ -242,7 +244,9 @@ theorem parse_accepts {nl dflt ds adds st} (hr : Reach nl dflt ds adds st) {q : 
     (∀ n, o.kind = .count → (defaults q.opts []).get (destOf o) = some (.nat n) →
       ∃ ns, parseArgs cfg st [q.name, s] = .ok ns ∧ ns.get (destOf o) = some (.nat (n + 1))) ∧
     (o.kind = .value → ∀ w, w ≠ dd → classify q.opts w = .word →
-      ∃ ns, parseArgs cfg st [q.name, s, w] = .ok ns ∧ ns.get (destOf o) = some (.str w)) := by
+      (∀ v, convArg o.conv w = some v →
+        ∃ ns, parseArgs cfg st [q.name, s, w] = .ok ns ∧ ns.get (destOf o) = some v) ∧
+      (convArg o.conv w = none → parseArgs cfg st [q.name, s, w] = .error (.exit 2))) := by
   have hc := classify_exact hs hf
   have fin : ∀ {rest : List Name} {v : Val}, SingleOk q rest o v →
       ∃ ns, parseArgs cfg st (q.name :: rest) = .ok ns ∧ ns.get (destOf o) = some v := by
@@ -253,7 +257,55 @@ theorem parse_accepts {nl dflt ds adds st} (hr : Reach nl dflt ds adds st) {q : 
     fun hk => fin (runParser_flagOff hfin hsd hc hk),
     fun v hk => fin (runParser_const hfin hsd hc hk),
     fun n hk hdn => fin (runParser_count hfin hsd hc hk hdn),
-    fun hk w hw hcw => fin (runParser_value hfin hsd hc hk hw hcw)⟩
+    fun hk w hw hcw => ⟨fun v hcv => fin (runParser_value hfin hsd hc hk hw hcw hcv), fun hcv => by
+      rw [command_dispatch hr hq hpub h1 h2,
+        runParser_value_refused (posOk_of_finishable hfin) hsd hc hk hw hcw hcv [] rfl]⟩⟩
+
+/-- **One owner per option string.** In a reachable state every option string of a parser's table is looked
+up to the very spec that carries it: the standard option, or the one placed on the `ArgParser`, on the parser
+or on a proper ancestor (`options_iff`) — argparse's conflict test lets no second owner in. So "the option was
+placed on an ancestor" and "the command reads the string as that option" are the same thing, for every kind
+of action. -/
+theorem table_unique {nl dflt ds adds st} (hr : Reach nl dflt ds adds st) :
+    ∀ q ∈ st.parsers, ∀ o ∈ q.opts, o.isOpt = true → ∀ s ∈ o.strings, findOpt q.opts s = some o :=
+  reach_uniq hr
+
+/-- **Help and version options are inherited like every other option.** Let `o` be an option with
+`action='help'` or `action='version'` (any option strings: `--usage`, `-V`, `--about` …) placed on the
+`ArgParser`, on the public command `q`, or on a command or internal `!` set that `q` names as a parent directly
+or transitively. Then `q` *accepts* each of its option strings `s`: `[q, s, …]` ends with status 0 — `exit 0`
+for help, the version text for version — whatever follows `s` (unknown options, stray words, missing
+required options or positionals are reported only at the end of the scan), provided no ambiguous
+abbreviation follows before `--` (that test precedes all actions). A command that is *not* below the owner
+answers `SystemExit(2)` by `parse_rejects` / `parse_rejects_short`. -/
+theorem info_inherited {nl dflt ds adds st} (hr : Reach nl dflt ds adds st) {q : Parser} (hq : q ∈ st.parsers)
+    (hpub : q.internal = false) (h1 : q.name ≠ hShort) (h2 : q.name ≠ hLong) (hpos : posOk q.opts = true)
+    {t : Option Name} {o : OptSpec} (ho : (t, o) ∈ adds) (hap : Applies ds t q.name) (hio : o.isOpt = true)
+    {s : Name} (hs : s ∈ o.strings) (hh : s.head? = some '-') (hsd : s ≠ dd)
+    (rest : List Name) (ha : ambiguousIn q.opts rest = false) :
+    (o.kind = .help → parseArgs cfg st (q.name :: s :: rest) = .error (.exit 0)) ∧
+    (∀ v, o.kind = .version v → parseArgs cfg st (q.name :: s :: rest) = .error (.version v)) := by
+  have hmem : o ∈ q.opts := (options_iff hr q hq o).mpr (Or.inr ⟨t, ho, hap⟩)
+  have hf : findOpt q.opts s = some o := table_unique hr q hq o hmem hio s hs
+  have hc := classify_exact hh hf
+  have key : ∀ e, infoExit o.kind = some e → parseArgs cfg st (q.name :: s :: rest) = .error e := by
+    intro e hk
+    rw [command_dispatch hr hq hpub h1 h2, runParser_info_head hpos hsd hc hk rest ha]
+  exact ⟨fun hk => key _ (by rw [hk]; rfl), fun v hk => key _ (by rw [hk]; rfl)⟩
+
+/-- the same for the standard help option (argparse's own `-h`/`--help`, which every command parser gets from
+`common_options`) and, generally, for whatever help / version spec the table holds under `s` -/
+theorem info_accepted {nl dflt ds adds st} (hr : Reach nl dflt ds adds st) {q : Parser} (hq : q ∈ st.parsers)
+    (hpub : q.internal = false) (h1 : q.name ≠ hShort) (h2 : q.name ≠ hLong) (hpos : posOk q.opts = true)
+    {s : Name} {o : OptSpec} (hh : s.head? = some '-') (hsd : s ≠ dd) (hf : findOpt q.opts s = some o)
+    (rest : List Name) (ha : ambiguousIn q.opts rest = false) :
+    (o.kind = .help → parseArgs cfg st (q.name :: s :: rest) = .error (.exit 0)) ∧
+    (∀ v, o.kind = .version v → parseArgs cfg st (q.name :: s :: rest) = .error (.version v)) := by
+  have hc := classify_exact hh hf
+  have key : ∀ e, infoExit o.kind = some e → parseArgs cfg st (q.name :: s :: rest) = .error e := by
+    intro e hk
+    rw [command_dispatch hr hq hpub h1 h2, runParser_info_head hpos hsd hc hk rest ha]
+  exact ⟨fun hk => key _ (by rw [hk]; rfl), fun v hk => key _ (by rw [hk]; rfl)⟩
 
 /-- **Rejected.** `[cmd, --option]` ends in `SystemExit(2)` whenever no option string of the command's
 table starts with `--option` (argparse would otherwise read it as an abbreviation, see `abbrev_unique`). -/
@@ -419,6 +471,7 @@ private theorem std_single {nl : Bool} {q : Parser} {extra : List OptSpec} (he :
     | flagOff => simp [hk] at hu
     | const v => simp [hk] at hu
     | help => simp [hk] at hu
+    | version v => simp [hk] at hu
     | pos n => simp [hk] at hu
 
 /-- **Standard options.** In every reachable parser, for every public command without a required
@@ -564,8 +617,25 @@ theorem default_cmd_partial {st : St} {q : Parser} (hq : q ∈ st.parsers)
     cases argv with
     | nil => simp at ha
     | cons x r => simpa using ha
-  rw [std_shape.2.2.2]
+  rw [std_shape.2.2.2.1]
   exact ⟨(h a ha').1, fun hm => (h a ha').2 (firstArgNames_sub hm)⟩
+
+/-- **An option in front.** Command names never start with `-` here (`hnames`; argparse would treat such a
+"command" as an option anyway). Then every argument list whose first element starts with `-` and is not
+`-h`/`--help` — `--version`, `--about`, `-V`, an option of the default command, an unknown option, `-`, `--` —
+is parsed as the default command: no further option name is special to `parse_args`. -/
+theorem default_cmd_option_first {st : St} {q : Parser} (hq : q ∈ st.parsers)
+    (hpub : q.internal = false) (hd : st.default = some q.name)
+    (hnames : ∀ p ∈ st.parsers, p.name.head? ≠ some '-')
+    (a : Name) (rest : List Name) (ha : a.head? = some '-') (h1 : a ≠ hShort) (h2 : a ≠ hLong) :
+    parseArgs cfg st (a :: rest) = parseArgs cfg st (q.name :: a :: rest) := by
+  apply default_cmd_partial hq hpub hd
+  intro b hb
+  have hba : b = a := by simpa using hb.symm
+  subst hba
+  refine ⟨by simp [h1, h2], fun hm => ?_⟩
+  obtain ⟨p, hp, hn⟩ := List.mem_map.mp hm
+  exact hnames p hp (hn ▸ ha)
 
 /-- **The full statement holds as soon as the first argument is compared with the public command
 names only** (`cfg.allParsers = false`, the two-line repair proposed for c19b; vacuous for the code as
@@ -584,7 +654,7 @@ theorem default_cmd_full_if_public_test {st : St} {q : Parser} (hfix : cfg.allPa
     cases argv with
     | nil => simp at ha
     | cons x r => simpa using ha
-  rw [std_shape.2.2.2, hfa]
+  rw [std_shape.2.2.2.1, hfa]
   exact h a ha'
 
 /-- **The gap (known finding c19b).** The code compares the first argument with *all* parser names
@@ -602,12 +672,20 @@ theorem internal_name_gap {nl dflt ds adds st} (hall : cfg.allParsers = true) (h
 
 /-! ### repeated calls, switches, the single-command parser -/
 
-/-- **No memory between calls; the caller's list.** `parse_args` inserts the default command into (and,
-with `_help_if_no_args`, appends `--help` to) the *caller's* list object. Parsing that same list object
-again gives the same result — in both modes, for every state, default and list. -/
+/-- **Any sequence; the caller's object is left alone** (6b8603f). `parse_args` works on a private copy: what
+the caller passed — list or tuple — is the same afterwards (no default command inserted, no `--help` appended),
+and a tuple is parsed exactly like the list with the same elements. In both modes, for every state. -/
+theorem caller_sequence_untouched (ap : ArgP) (l : List (Option Name)) :
+    (∀ t, (parseCall cfg ap t l).2 = l) ∧ (parseCall cfg ap true l).1 = (parseCall cfg ap false l).1 := by
+  have hc := std_shape.2.2.2.2
+  exact ⟨fun t => by rw [parseCall_copy hc], by rw [parseCall_copy hc, parseCall_copy hc]⟩
+
+/-- **No memory between calls.** Passing the same list object to `parse_args` twice gives the same result both
+times (proved for the copying code and for the older in-place code alike: there the list the first call
+modified parses the same way). -/
 theorem parse_twice (ap : ArgP) (l : List (Option Name)) :
-    (parseList cfg ap (parseList cfg ap l).2).1 = (parseList cfg ap l).1 :=
-  parseList_twice cfg ap l
+    (parseCall cfg ap false (parseCall cfg ap false l).2).1 = (parseCall cfg ap false l).1 :=
+  parseCall_twice cfg ap l
 
 /-- `_no_log_file` adds the attribute `_no_log_file=True` to every namespace and changes nothing else;
 without it the attribute is whatever the parser produced (normally absent). -/
@@ -628,17 +706,20 @@ theorem no_log_file_attr (sw : Switches) {sub ns : Ns} (h : afterParse sw (.ok s
     · exact get_set_ne _ k1 _
     · rfl
 
-/-- `_help_if_no_args`: an empty argument list becomes `['--help']` (in the caller's list too) and the
-multi-command parser exits with status 0. -/
-theorem help_if_no_args (sw : Switches) (st : St) (h : sw.helpIfNoArgs = true) :
-    parseList cfg { sw := sw, mode := .multi st } [] = (.error (.exit 0), [some helpLong]) := by
-  have hk : (helpLong : Name) ∈ cfg.helpFirst := by rw [std_shape.2.2.2]; decide
+/-- `_help_if_no_args`: an empty argument sequence is parsed as `['--help']` — the multi-command parser exits with
+status 0 — and the caller's (empty) sequence stays empty. -/
+theorem help_if_no_args (sw : Switches) (st : St) (h : sw.helpIfNoArgs = true) (t : Bool) :
+    parseCall cfg { sw := sw, mode := .multi st } t [] = (.error (.exit 0), []) := by
+  have hk : (helpLong : Name) ∈ cfg.helpFirst := by rw [std_shape.2.2.2.1]; decide
+  rw [parseCall_copy std_shape.2.2.2.2]
+  congr 1
   unfold parseList prepare
   simp only [List.isEmpty_nil, h, Bool.and_self, if_true, withDefault_keep [] (Or.inl hk)]
   simp [dispatch, afterParse]
 
 /-- **The single-command `ArgParser`** (no `commands=`): there is no default command and no dispatch — the
-arguments go to the one parser, the caller's list is touched only by `_help_if_no_args`; the standard
+arguments go to the one parser (`parseList` is the work on the method's private list, to which only
+`_help_if_no_args` adds something; the caller's object: `caller_sequence_untouched`); the standard
 options are accepted and post-processed exactly as in a command of a multi-command parser. -/
 theorem single_mode {nl : Bool} {adds : List OptSpec} {p : Parser} (hr : ReachS nl adds p) (sw : Switches) :
     (∀ l, parseList cfg { sw := sw, mode := .single p } l =
@@ -692,7 +773,14 @@ def addsDiamond : List (Option Name × OptSpec) :=
    (some (n "a"), flag "--arg-one"), (some (n "b"), flag "--arg-two"),
    (some (n "a"), { strings := [n "-q"], kind := .flag, mutex := false }),
    (some (n "a"), { strings := [n "-o", n "--out"], kind := .value, mutex := false }),
-   (some (n "a"), { strings := [n "items"], kind := .pos .star, mutex := false })]
+   (some (n "a"), { strings := [n "items"], kind := .pos .star, mutex := false }),
+   -- help / version actions on an internal set and on the root; an ordinary flag called `--version`
+   (some (n "o"), { strings := [n "-V", n "--about"], kind := .version (n "tool-1.2"), mutex := false }),
+   (some (n "a"), { strings := [n "--usage"], kind := .help, mutex := false }),
+   (some (n "a"), flag "--version"),
+   -- `type=int` and `choices=[...]` on the root
+   (some (n "a"), { strings := [n "--num"], kind := .value, mutex := false, conv := .int }),
+   (some (n "a"), { strings := [n "--lvl"], kind := .value, mutex := false, conv := .oneOf [n "lo", n "hi"] })]
 
 def stDiamond : Except Fail St :=
   match build cfg false none dsDiamond with
@@ -741,6 +829,24 @@ example : okWith (parseDiamond ["d", "-qvvofile"]) "out" (.str (n "file")) = tru
 example : okWith (parseDiamond ["--", "x"]) "items" (.list [n "x"]) = true := by decide +kernel
 example : okWith (parseDiamond ["-", "help", "h", ""]) "items" (.list [n "-", n "help", n "h", n ""]) = true := by decide +kernel
 example : okWith (parseDiamond ["a", "--no-color"]) "color" (.bool false) = true := by decide +kernel
+-- help / version actions are inherited (status 0, the version text), also with rubbish behind them; strangers exit 2
+example : parseDiamond ["e", "--about"] = .error (.version (n "tool-1.2")) := by decide +kernel
+example : parseDiamond ["e", "-V", "--zz", "w"] = .error (.version (n "tool-1.2")) := by decide +kernel
+example : parseDiamond ["e", "-qV"] = .error (.version (n "tool-1.2")) := by decide +kernel
+example : parseDiamond ["d", "--about"] = .error (.exit 2) := by decide +kernel
+example : parseDiamond ["d", "--usage"] = .error (.exit 0) := by decide +kernel
+example : parseDiamond ["e", "--zz", "--usage"] = .error (.exit 0) := by decide +kernel
+example : parseDiamond ["e", "--usage=1"] = .error (.exit 2) := by decide +kernel
+example : parseDiamond ["e", "-Vo"] = .error (.exit 2) := by decide +kernel        -- `-o` finds no value: before any action
+-- `type=int`, `choices=[...]` are inherited with the option
+example : parseDiamond ["d", "--num", "x1"] = .error (.exit 2) := by decide +kernel
+example : okWith (parseDiamond ["e", "--lvl", "hi"]) "lvl" (.str (n "hi")) = true := by decide +kernel
+example : parseDiamond ["e", "--lvl", "mid"] = .error (.exit 2) := by decide +kernel
+-- an option in front, whatever its name: the default command
+example : okWith (parseDiamond ["--version"]) "command" (.str (n "a")) = true := by decide +kernel
+example : okWith (parseDiamond ["--version"]) "version" (.bool true) = true := by decide +kernel
+example : parseDiamond ["--usage"] = .error (.exit 0) := by decide +kernel
+example : parseDiamond ["--about"] = .error (.exit 2) := by decide +kernel
 example : parseDecl (n "!cmd2: cmd1 ,,opts, cmd1") = ⟨n "cmd2", true, [n "opts", n "cmd1"]⟩ := by decide +kernel
 example : render ⟨n "cmd2", false, [n "cmd1", n "opts_set1"]⟩ = n "cmd2:cmd1,opts_set1" := by decide +kernel
 
@@ -772,5 +878,26 @@ theorem default_cmd_internal_name_counterexample (hall : cfg.allParsers = true) 
     | error e => simp [hp, Except.toOption] at h4
     | ok ns => exact ⟨ns, rfl, by simpa [hp, Except.toOption] using h4⟩
   | exact absurd hall (by decide)
+
+/-- **Options added through a group are not inherited (known finding `group_options_not_inherited`).**
+`get_cmd_parser('a').add_mutually_exclusive_group().add_argument('--fx', …)` (or `add_argument_group()`) uses
+argparse's own group object, whose `add_argument` is not `AkArgumentParser.add_argument`: with
+`commands=[('a',…), ('b:a',…)]` the command `a` accepts `--fx`, its child `b` exits with status 2 — although
+`--fx` is "an option added to a command's parser" that `b` names as a parent. -/
+theorem group_option_not_inherited_counterexample :
+    ∃ st0 st, build cfg false none [⟨['a'], false, []⟩, ⟨['b'], false, [['a']]⟩] = .ok st0 ∧
+      addViaGroup st0 ['a'] { strings := [['-', '-', 'f', 'x']], kind := .flag, mutex := false } = .ok st ∧
+      (∃ ns, parseArgs cfg st [['a'], ['-', '-', 'f', 'x']] = .ok ns ∧ ns.get ['f', 'x'] = some (.bool true)) ∧
+      parseArgs cfg st [['b'], ['-', '-', 'f', 'x']] = .error (.exit 2) := by
+  have hb : ∃ st0, build cfg false none [⟨['a'], false, []⟩, ⟨['b'], false, [['a']]⟩] = .ok st0 ∧
+      ∃ st, addViaGroup st0 ['a'] { strings := [['-', '-', 'f', 'x']], kind := .flag, mutex := false } = .ok st ∧
+      (parseArgs cfg st [['a'], ['-', '-', 'f', 'x']]).toOption.bind (fun ns => ns.get ['f', 'x']) = some (.bool true) ∧
+      parseArgs cfg st [['b'], ['-', '-', 'f', 'x']] = .error (.exit 2) := by
+    refine ⟨_, rfl, _, rfl, ?_, ?_⟩ <;> decide +kernel
+  obtain ⟨st0, h0, st, h1, h2, h3⟩ := hb
+  refine ⟨st0, st, h0, h1, ?_, h3⟩
+  cases hp : parseArgs cfg st [['a'], ['-', '-', 'f', 'x']] with
+  | error e => simp [hp, Except.toOption] at h2
+  | ok ns => exact ⟨ns, rfl, by simpa [hp, Except.toOption] using h2⟩
 
 end C19
